@@ -124,6 +124,111 @@ def is_loser_object(e):
     return e is not None and (e.get("ty") or "").replace("const ", "").rstrip(" &").endswith("::Loser")
 
 
+def local_object(b, depth=0):
+    """declaration id of the local Loser object that b designates (the object itself, a reference local bound to it, *p for a
+    never-reassigned pointer to it); None if b is a node of the tree or anything else"""
+    b = strip_casts(b)
+    if b is None or depth > 6 or node_index(b) is not None:
+        return None
+    d = ref_of(b)
+    if d is None:
+        q = match.deref_of(b)
+        if q is not None and ref_of(q) in _PTR_INITS:
+            return local_object(_PTR_INITS[ref_of(q)], depth + 1)
+        if b["k"] == "UnaryOperator" and b.get("op") == "&" and kids(b):
+            return local_object(kids(b)[0], depth + 1)          # (&cand)->f
+        if q is not None and strip_casts(q)["k"] == "UnaryOperator" and strip_casts(q).get("op") == "&":
+            return local_object(kids(strip_casts(q))[0], depth + 1)     # (*&cand).f
+        return None
+    if d in _REF_INITS:
+        return local_object(_REF_INITS[d], depth + 1)
+    if d in _PTR_INITS:
+        return local_object(_PTR_INITS[d], depth + 1)          # p->f
+    return d if is_loser_object(b) else None
+
+
+def local_place(e, depth=0):
+    """where a value of the travelling player is held: the declaration id of a plain local / parameter, or (id, field) for
+    a field of a local Loser object (`cand.keyp`); None for a field of a tree node and for anything else"""
+    e = strip_casts(e)
+    if e is None or depth > 6:
+        return None
+    d = ref_of(e)
+    if d is not None:
+        if d in _REF_INITS and node_field(e) is None and node_index(e) is None:
+            t = local_place(_REF_INITS[d], depth + 1)      # Source& s = source;  const bool& s = cand.sup;
+            return t if t is not None else d
+        return d
+    if is_loser_member(e) and kids(e):
+        o = local_object(kids(e)[0])
+        if o is not None:
+            return (o, e["member"])
+    return None
+
+
+def place_decl(p):
+    return p[0] if isinstance(p, tuple) else p
+
+
+def member_expr(obj, field, owner):
+    """synthetic obj.field, for a whole-object operation that is taken apart field by field"""
+    m = {"k": "MemberExpr", "id": -1, "member": field["name"], "owner": owner, "ty": field.get("ty"), "lv": True,
+         "l": obj.get("l"), "ch": [obj], "synthetic": True}
+    if obj.get("f"):
+        m["f"] = obj["f"]
+    return m
+
+
+def field_values(e, fields, owner):
+    """a whole player value taken apart: field name -> expression, for Loser{a, b, ...} / {a, b, ...} (declaration order),
+    a node of the tree, a local Loser object (also through std::move and copy construction); None if e is something else"""
+    e = match.strip_conv(strip_move(e))
+    while e is not None and e["k"] in ("MaterializeTemporaryExpr", "ExprWithCleanups", "CXXBindTemporaryExpr", "ParenExpr") and kids(e):
+        e = match.strip_conv(strip_move(kids(e)[0]))
+    if e is None:
+        return None
+    if e["k"] == "InitListExpr":
+        if len(kids(e)) != len(fields) or any(x is None for x in kids(e)):
+            return None
+        return {f["name"]: x for f, x in zip(fields, kids(e))}
+    if is_loser_object(e) and (node_index(e) is not None or local_object(e) is not None):
+        return {f["name"]: member_expr(e, f, owner) for f in fields}
+    return None
+
+
+def lambda_condition(fn, n):
+    """for a call of a local lambda used as a condition (`node_wins(losers_[pos])`): the value it returns as one
+    expression over the caller's objects, parameters replaced by the arguments.  The lambda must see the caller's locals as
+    they are at the call: every variable is captured by reference.  None if n is not such a call; Undecidable if it is one
+    and cannot be translated."""
+    fc = match.functor_call(n)
+    if not fc or ref_of(fc[0]) is None:
+        return None
+    decl = None
+    for x in fn.nodes():
+        if x["k"] == "VarDecl" and x.get("did") == ref_of(fc[0]):
+            decl = x
+    init = decl and kids(decl) and kids(decl)[0]
+    while init and init["k"] != "LambdaExpr" and len(kids(init)) == 1 and \
+            init["k"] in ("ExprWithCleanups", "MaterializeTemporaryExpr", "CXXConstructExpr", "ImplicitCastExpr", "CXXBindTemporaryExpr"):
+        init = kids(init)[0]
+    if not init or init["k"] != "LambdaExpr":
+        return None
+    where = fn.nloc(n)
+    callee = fn.tu.by_did.get(init.get("fn"))
+    if callee is None or callee.body is None or "captures" not in init:
+        raise dtable.Undecidable("%s: body of the lambda called here is not known" % where)
+    for c in init["captures"]:
+        if c.get("name") != "this" and not c.get("byref"):
+            raise dtable.Undecidable("%s: lambda captures %s by value: what it sees at the call is not what the caller holds" % (where, c.get("name")))
+    if len(fc[1]) != len(callee.params):
+        raise dtable.Undecidable("%s: arguments of the lambda called here not understood" % where)
+    sub = dtable.stmts_as_expr(kids(callee.body), {p["did"]: a for p, a in zip(callee.params, fc[1])})
+    if sub is None:
+        raise dtable.Undecidable("%s: body of the lambda called here is not a chain of returns" % where)
+    return sub
+
+
 # ----------------------------------------------------------------------------
 # evaluation of tree accesses in the integer skeleton (engine/skel.py): REPLAY-PATH and PADDING
 # ----------------------------------------------------------------------------
@@ -176,12 +281,32 @@ def object_slot(fn, obj, arrow, sk):
             s = a + i if _is_int(a) and _is_int(i) else None
         else:
             key = sk.lvalue(o)
-            if _is_int(key) and ref_of(o) is not None and ref_of(o) not in sk.alias:
-                return None, None                       # a local Loser object
+            if _is_int(key):
+                return None, None                       # a local Loser object (also through a reference / pointer to it)
             s = _key_slot(key)
     if not _is_int(s):
         raise dtable.Undecidable("%s: tree node of this access is not known to the evaluation: %s" % (fn.nloc(o), dtable.describe(o)))
     return s, ix
+
+
+def local_key(obj, arrow, sk):
+    """key, in the evaluation, of the local Loser object that `obj` designates (object_slot() said it is not a tree node)"""
+    if arrow:
+        v = sk.ev(obj)
+        return v[1] if isinstance(v, tuple) and len(v) == 2 and v[0] == "ptr" and _is_int(v[1]) else None
+    key = sk.lvalue(strip_casts(obj))
+    return key if _is_int(key) else None
+
+
+def player(names, values):
+    """value of a whole Loser object in the evaluation: its fields in declaration order"""
+    return ("loser", tuple((f, values.get(f)) for f in names))
+
+
+def player_field(v, field):
+    if isinstance(v, tuple) and len(v) == 2 and v[0] == "loser":
+        return dict(v[1]).get(field)
+    return None
 
 
 def inlinable(e, sk):
@@ -246,7 +371,7 @@ class _PathWrong(Exception):
 
 
 def replay_loop(ck, fn):
-    loops = [s for s in kids(fn.body) if s is not None and s["k"] in ("WhileStmt", "ForStmt")]
+    loops = [s for s in kids(fn.body) if s is not None and s["k"] in ("WhileStmt", "ForStmt", "DoStmt")]
     ck.require(len(loops) == 1, "%s: expected one replay loop in delete_min_insert" % fn.loc)
     return loops[0]
 
@@ -255,8 +380,10 @@ def replay_path_eval(ck, fn, loop, fields):
     """REPLAY-PATH by evaluation: the integer skeleton of delete_min_insert is run for k_ in {1, 2, 4, 8} and every winner
     source s (the value read from losers_[0].source), once with every data-dependent branch taken and once with none taken.
     The nodes the replay loop touches must be (k_ + s) / 2, its parent, ..., 1 in this order and nothing else, and afterwards
-    slot 0 must receive every field of a player.  Returns field -> local whose value slot 0 receives, or None after a
-    violation (a concrete (k_, s) and the nodes touched).  Undecidable if the skeleton cannot be evaluated."""
+    slot 0 must receive every field of a player.  Returns field -> place whose value slot 0 receives (a local, or
+    (local, field) when the challenger travels as one Loser object: `cand = { losers_[0].source, keyp }; ...; losers_[0] =
+    cand`; the evaluation keeps the fields of such an object), or None after a violation (a concrete (k_, s) and the nodes
+    touched).  Undecidable if the skeleton cannot be evaluated."""
     from engine import skel
     stmts = kids(fn.body)
     li = stmts.index(loop)
@@ -268,6 +395,7 @@ def replay_path_eval(ck, fn, loop, fields):
     post_ids = {x["id"] for s_ in stmts[li + 1:] for x in ir.walk(s_)}
     decl_site = {x["did"]: x["id"] for x in fn.nodes() if x["k"] == "VarDecl"}
     escape = field_escapes(fn)
+    owner = CLASSES_BASE(fn) + "::Loser"
     chal = None
     for K in (1, 2, 4, 8):
         for s in range(K):
@@ -315,6 +443,14 @@ def replay_path_eval(ck, fn, loop, fields):
                     d = ref_of(obj)
                     return d is not None and d in decl_site and decl_site[d] not in loop_ids
 
+                def node_source(slot):
+                    """what the evaluation knows of the field `source` of a node"""
+                    if slot == 0:
+                        return s
+                    if st["phase"] == "pre":
+                        return (s + 1) % K           # before the replay another slot holds another player: not the winner's source
+                    return None
+
                 def event(e, sk):
                     k = e["k"]
                     phase(e, sk)         # every expression of the function itself says where the evaluation is
@@ -334,32 +470,44 @@ def replay_path_eval(ck, fn, loop, fields):
                         if is_loser_member(lhs) and not match.this_field(lhs):
                             slot, ix = object_slot(fn, kids(lhs)[0], lhs.get("arrow"), sk)
                             if slot is None:
-                                return NotImplemented                  # a field of a local player object
+                                key = local_key(kids(lhs)[0], lhs.get("arrow"), sk)      # a field of a local player object
+                                if key is None:
+                                    return NotImplemented
+                                v = sk.ev(bq[2])
+                                cur = sk.env.get(key)
+                                vals = dict(cur[1]) if isinstance(cur, tuple) and len(cur) == 2 and cur[0] == "loser" else {}
+                                vals[lhs["member"]] = v
+                                sk.env[key] = player(fields, vals)
+                                return v
                             touch(slot, is_fixed(kids(lhs)[0], ix), lhs["member"], e, sk, store=bq[2])
                             return sk.ev(bq[2])
                         if is_loser_object(lhs):
                             slot, ix = object_slot(fn, lhs, False, sk)
                             if slot is None:
-                                return NotImplemented
-                            st["whole"].add(slot)
-                            touch(slot, is_fixed(lhs, ix), None, e, sk)
+                                return NotImplemented              # a local player object: engine/skel.py stores the value
+                            parts = field_values(bq[2], loser_fields(fn), owner)
+                            if parts is None:
+                                st["whole"].add(slot)
+                                touch(slot, is_fixed(lhs, ix), None, e, sk)
+                            else:
+                                for f_ in fields:                  # losers_[0] = cand: every field of the node is stored
+                                    touch(slot, is_fixed(lhs, ix), f_, e, sk, store=parts[f_])
                             sk.ev(bq[2])
                             return None
                     if is_loser_member(e) and not match.this_field(e):
                         slot, ix = object_slot(fn, kids(e)[0], e.get("arrow"), sk)
                         if slot is None:
-                            return NotImplemented
+                            key = local_key(kids(e)[0], e.get("arrow"), sk)
+                            return player_field(sk.env.get(key), e["member"]) if key is not None else NotImplemented
                         touch(slot, is_fixed(kids(e)[0], ix), e["member"], e, sk)
-                        if e["member"] == "source" and slot == 0:
-                            return s
-                        if e["member"] == "source" and st["phase"] == "pre":
-                            return (s + 1) % K           # before the replay another slot holds another player: not the winner's source
-                        return None
+                        return node_source(slot) if e["member"] == "source" else None
                     ip = match.index_parts(e)
                     if ip and match.this_field(ip[0]) == TREE:
                         slot, ix = object_slot(fn, e, False, sk)       # a whole node is read / passed on
                         touch(slot, is_fixed(e, ix), None, e, sk)
-                        return NotImplemented
+                        return player(fields, {"source": node_source(slot)})
+                    if k == "InitListExpr" and is_loser_object(e) and len(kids(e)) == len(fields):
+                        return player(fields, {f_: sk.ev(x_) for f_, x_ in zip(fields, kids(e))})     # Loser cand = { a, b };
                     if "callee" in e and e["callee"]["name"] == "swap" and not e.get("member_call") and len(kids(e)) == 2:
                         for a in kids(e):
                             if is_loser_object(a) and object_slot(fn, a, False, sk)[0] is not None:
@@ -397,8 +545,8 @@ def replay_path_eval(ck, fn, loop, fields):
                     return None
                 got = {}
                 for f in fields:
-                    d = ref_of(strip_move(st["final"][f]))
-                    if d is None or d not in decl_site and not any(p_["did"] == d for p_ in fn.params):
+                    d = local_place(strip_move(st["final"][f]))
+                    if d is None or place_decl(d) not in decl_site and not any(p_["did"] == place_decl(d) for p_ in fn.params):
                         raise dtable.Undecidable("%s: slot 0 receives %s from something that is not a local: %s"
                                                  % (fn.nloc(st["final"][f]), f, dtable.describe(st["final"][f])))
                     got[f] = d
@@ -476,6 +624,8 @@ def position_variable(fn, lbody):
     for x in ir.walk(lbody):
         nf = node_field(x) if x["k"] in ("MemberExpr", "DeclRefExpr") else None
         d = ref_of(nf[0]) if nf else None
+        if nf is None and match.index_parts(x) and node_index(x) is not None:
+            d = ref_of(node_index(x))                # a whole node: swap(losers_[pos], cand)
         if d in inside and kids(inside[d]) and ref_of(kids(inside[d])[0]) is not None:
             d = ref_of(kids(inside[d])[0])           # const Source cur = pos;
         if d is not None and d not in inside:
@@ -511,6 +661,8 @@ def check_replay(ck, fn, info, stable):
     supvar = chal.get("sup")
     pointer = info["pointer"]
     chal_vars = {d: f for f, d in chal.items()}
+    lfields = loser_fields(fn)
+    owner = CLASSES_BASE(fn) + "::Loser"
 
     # a copy of the node index taken at the top of the iteration (`const Source cur = pos; pos /= 2; ... losers_[cur]`)
     pos_copies = set()
@@ -527,8 +679,26 @@ def check_replay(ck, fn, info, stable):
                if z["k"] in ("BinaryOperator", "CompoundAssignOperator")):
             halved = True
 
+    # which node an access designates: the position as it is at the top of the iteration ('before' the step to the parent; a
+    # copy of the position taken at the top always means that one) or the position 'after' the step (do { pos /= 2; ... })
+    track = dict(moved=False, seen=None)
+
     def is_pos(i):
-        return i is not None and (ref_of(i) == posv or ref_of(i) in pos_copies)
+        if i is None:
+            return False
+        if ref_of(i) == posv:
+            if track["seen"] is not None:
+                track["seen"].add("after" if track["moved"] else "before")
+            return True
+        if ref_of(i) in pos_copies:
+            if track["seen"] is not None:
+                track["seen"].add("before")
+            return True
+        return False
+
+    def follow(run, moved):
+        track["moved"] = moved
+        track["seen"] = run.__dict__.setdefault("node_seen", set())
 
     def is_node(e):
         return is_pos(node_index(e))
@@ -539,13 +709,13 @@ def check_replay(ck, fn, info, stable):
             d = match.deref_of(e)
             if d is None:
                 return None
-            if ref_of(d) == keyvar:
+            if local_place(d) == keyvar:
                 return "chal"
             f = match.field_of(d)
             if f and f[1] == "keyp" and is_node(f[0]):
                 return "node"
             return None
-        if ref_of(e) == keyvar:
+        if local_place(e) == keyvar:
             return "chal"
         f = match.field_of(e)
         if f and f[1] == "key" and is_node(f[0]):
@@ -560,21 +730,37 @@ def check_replay(ck, fn, info, stable):
         return bool(u and ref_of(u[1]) == posv)
 
     def pos_test(n, run):
-        """a test of the position against 0 inside the body, before the position moves: at a node of the path pos >= 1"""
-        if any(ev[0] == "expr" and moves_pos(ev[1]) for ev in run.events):
-            return None
+        """a test of the position against 0 inside the body.  Before the position moves: at a node of the path pos >= 1.
+        After the step to the parent the outcome is open: atom X (the position is 0, the loop is left without a game:
+        do { pos /= 2; if (pos == 0) break; game }) if no node was consulted yet, atom T (the game just played was the
+        topmost one) if the game of this iteration is over."""
+        pol = None
         if match.positive_test(n, posv):
-            return True
+            pol = True
         b = match.binop(n) if strip_casts(n)["k"] == "BinaryOperator" else None
-        if b:
+        if b and pol is None:
             op, l, r = b
             if ref_of(l) == posv and ((op in ("==", "<=") and const_int(r) == 0) or (op == "<" and const_int(r) == 1)):
-                return False
+                pol = False
             if ref_of(r) == posv and ((op in ("==", ">=") and const_int(l) == 0) or (op == ">" and const_int(l) == 1)):
-                return False
-        return None
+                pol = False
+        if pol is None or not track["moved"]:
+            return pol
+        played = "before" in track["seen"]
+        for ev in run.events:
+            if ev[0] == "expr" and moves_pos(ev[1]):
+                break
+            for x in ir.walk(ev[1]) if ev[0] in ("expr", "decl") else ():
+                i = node_index(x) if x["k"] not in ("VarDecl", "DeclStmt") else None
+                if i is not None and (ref_of(i) == posv or ref_of(i) in pos_copies):
+                    played = True           # an effect (swap(losers_[pos], cand)) on the node before the step
+        return ("T" if played else "X", pol)
 
     def atomize(n, run):
+        follow(run, any(ev[0] == "expr" and moves_pos(ev[1]) for ev in run.events))
+        lam = lambda_condition(fn, n)
+        if lam is not None:
+            return run.truth(lam)        # the decision moved into a local lambda that sees the challenger by reference
         pt = match.ptr_truth(n)
         neg = True
         if pt is None and pointer:
@@ -585,13 +771,13 @@ def check_replay(ck, fn, info, stable):
                         pt = x_
                         neg = bn[0] == "!="          # p != nullptr  <=>  not exhausted
         if pt is not None:
-            if ref_of(pt) == keyvar and pointer:
+            if local_place(pt) == keyvar and pointer:
                 return ("S", neg)
             f = match.field_of(pt)
             if f and f[1] == "keyp" and is_node(f[0]):
                 return ("L", neg)
             return None
-        if supvar is not None and n["k"] == "DeclRefExpr" and n["ref"]["id"] == supvar:
+        if supvar is not None and n["k"] in ("DeclRefExpr", "MemberExpr") and local_place(n) == supvar:
             return ("S", False)
         f = match.field_of(n)
         if f and f[1] == "sup" and is_node(f[0]) and n["k"] == "MemberExpr":
@@ -607,7 +793,7 @@ def check_replay(ck, fn, info, stable):
         b = match.binop(n, ("<", ">", "<=", ">="))
         if b and n["k"] == "BinaryOperator":
             def srole(e):
-                if ref_of(e) == chal["source"]:
+                if local_place(e) == chal["source"]:
                     return "chal"
                 ff = match.field_of(e)
                 if ff and ff[1] == "source" and is_node(ff[0]):
@@ -643,10 +829,12 @@ def check_replay(ck, fn, info, stable):
         """what the events of one row do to the node at pos and to the challenger, as symbols: the cells are the fields of the
         node and the locals; a cell holds ('node', f) / ('chal', f) (the value the node's / the challenger's field f had at
         the top of the iteration), ('const', c), or None (not known).  Every event is a move between cells (assignment,
-        swap, declaration of a temporary) or the step to the parent; anything else is not understood."""
+        swap, declaration of a temporary) or the step to the parent; anything else is not understood.  An operation on
+        whole players (swap(losers_[pos], cand), node = cand, Loser tmp = node) is the same operation on every field."""
         cells = {}
         used = {}            # local -> position (in the order of the text) of the last event that reads / writes it as a cell
         now = [0]
+        follow(lf["run"], False)
 
         def cell(e):
             e = strip_casts(e)
@@ -655,7 +843,7 @@ def check_replay(ck, fn, info, stable):
                 if is_pos(nf_[0]):
                     return ("node", nf_[1])
                 raise dtable.Undecidable("%s: replay loop body touches a node other than the current one: %s" % (fn.nloc(e), dtable.describe(e)))
-            d_ = ref_of(e)
+            d_ = local_place(e)
             if d_ is not None:
                 used[d_] = max(used.get(d_, -1), now[0])
             return ("var", d_) if d_ is not None else None
@@ -685,12 +873,38 @@ def check_replay(ck, fn, info, stable):
                 return ("const", int(lf["run"].env[c_[1]]))          # const bool flag = ...; decided by the row
             return cells[c_] if c_ in cells else initial(c_)
 
+        def assign(lhs, rhs):
+            c_ = cell(lhs)
+            val = rd(rhs)
+            if c_ is not None and (val is not None or not relevant(c_)) and c_ != ("var", posv):
+                cells[c_] = val
+                return True
+            return False
+
+        def exchange(a, b):
+            ca, cb = cell(a), cell(b)
+            va, vb = rd(a), rd(b)
+            if ca is not None and cb is not None and ("var", posv) not in (ca, cb) and \
+                    ((va is not None and vb is not None) or not (relevant(ca) or relevant(cb))):
+                cells[ca], cells[cb] = vb, va
+                return True
+            return False
+
+        def whole(e):
+            """field name -> expression, if e designates a whole player (a node, a local Loser object, Loser{...})"""
+            return field_values(e, lfields, owner) if e is not None and (is_loser_object(e) or strip_casts(e)["k"] == "InitListExpr") else None
+
         for ev in lf["events"]:
             if ev[0] == "decl":
                 v_ = ev[1]
                 if v_.get("isref"):
                     continue                                     # an alias: resolved where it is used
                 init_ = kids(v_)[0] if kids(v_) else None
+                if (v_.get("ty") or "").replace("const ", "").rstrip().endswith("::Loser"):
+                    parts = whole(init_)                         # Loser tmp = losers_[pos];  a copy of every field
+                    for f_ in fields:
+                        cells[("var", (v_["did"], f_))] = rd(parts[f_]) if parts else None
+                    continue
                 cells[("var", v_["did"])] = rd(init_) if init_ is not None else None
                 continue
             if ev[0] != "expr":
@@ -698,21 +912,27 @@ def check_replay(ck, fn, info, stable):
             e = ev[1]
             now[0] = text_order.get(e.get("id"), 1 << 30)
             if match.halving(e, posv):
+                track["moved"] = True
                 continue
             asg = match.binop(e, ("=",)) if e["k"] in ("BinaryOperator", "CXXOperatorCallExpr") else None
             if asg:
-                c_ = cell(asg[1])
-                val = rd(asg[2])
-                if c_ is not None and (val is not None or not relevant(c_)) and c_ != ("var", posv):
-                    cells[c_] = val
+                pl, pr = (whole(asg[1]), whole(asg[2])) if is_loser_object(asg[1]) else (None, None)
+                if pl and pr:                                    # node = cand: field by field (the fields are independent cells)
+                    vals_ = {f_: rd(pr[f_]) for f_ in fields}
+                    cs_ = {f_: cell(pl[f_]) for f_ in fields}
+                    if all(cs_[f_] is not None and (vals_[f_] is not None or not relevant(cs_[f_])) for f_ in fields):
+                        for f_ in fields:
+                            cells[cs_[f_]] = vals_[f_]
+                        continue
+                elif not is_loser_object(asg[1]) and assign(asg[1], asg[2]):
                     continue
             c = match.call_named(e, ("swap",))
             if c and len(kids(c)) == 2 and not c.get("member_call"):
-                ca, cb = cell(kids(c)[0]), cell(kids(c)[1])
-                va, vb = rd(kids(c)[0]), rd(kids(c)[1])
-                if ca is not None and cb is not None and ("var", posv) not in (ca, cb) and \
-                        ((va is not None and vb is not None) or not (relevant(ca) or relevant(cb))):
-                    cells[ca], cells[cb] = vb, va
+                pa, pb = (whole(kids(c)[0]), whole(kids(c)[1])) if is_loser_object(kids(c)[0]) and is_loser_object(kids(c)[1]) else (None, None)
+                if pa and pb:                                    # swap(losers_[pos], cand): every field is exchanged
+                    if all(exchange(pa[f_], pb[f_]) for f_ in fields):
+                        continue
+                elif not is_loser_object(kids(c)[0]) and not is_loser_object(kids(c)[1]) and exchange(kids(c)[0], kids(c)[1]):
                     continue
             raise dtable.Undecidable("%s: effect not understood in replay loop body: %s" % (fn.nloc(e), dtable.describe(e)))
         # engine/dtable.py keeps assignments to bool locals to itself (no event): `sup = losers_[pos].sup;` shows up as the
@@ -741,7 +961,17 @@ def check_replay(ck, fn, info, stable):
         S, L = v.get("S", False), v.get("L", False)
         A, B, C, D = v["A"], v["B"], v.get("C", False), v.get("D", False)
         status = {}
-        for f, (n_, c_) in row_effect(lf).items():
+        effect = row_effect(lf)
+        if len(lf["run"].node_seen) > 1:
+            raise dtable.Undecidable("%s: one step of the replay addresses nodes both before and after the position moves to the parent (%s)"
+                                     % (fn.nloc(loop), dtable.fmt_val(v)))
+        if v.get("X"):
+            # the loop is left before a game is played: nothing may have happened to a node or to the challenger
+            if any((n_, c_) != (("node", f), ("chal", f)) for f, (n_, c_) in effect.items()):
+                raise dtable.Undecidable("%s: the replay loop is left at position 0 after changing a node or the challenger (%s)"
+                                         % (fn.nloc(loop), dtable.fmt_val(v)))
+            continue
+        for f, (n_, c_) in effect.items():
             if f == "sup" and "S" in v and "L" in v:
                 # a flag: what counts is its value in this row (node.sup = true; sup = false is a swap when S and not L)
                 val = {("node", "sup"): L, ("chal", "sup"): S, ("const", 0): False, ("const", 1): True}
@@ -1176,8 +1406,8 @@ def check_padding(ck, fn, guarded, pointer):
             r = match.strip_conv(rhs)
             if r is None:
                 return None
-            d = ref_of(r)
-            if d is not None and (d, fld) in locals_:
+            d = sk.lvalue(r) if ref_of(r) is not None else None      # the object itself or a reference bound to it
+            if _is_int(d) and (d, fld) in locals_:
                 return locals_[(d, fld)]
             if r["k"] == "InitListExpr" and len(kids(r)) == len(names) and fld in names:
                 x = kids(r)[names.index(fld)]
@@ -1203,7 +1433,7 @@ def check_padding(ck, fn, guarded, pointer):
                 if is_loser_member(lhs) and not match.this_field(lhs):
                     slot, _ix = object_slot(fn, kids(lhs)[0], lhs.get("arrow"), sk)
                     if slot is None:
-                        d = ref_of(kids(lhs)[0])
+                        d = local_key(kids(lhs)[0], lhs.get("arrow"), sk)
                         if d is None:
                             raise dtable.Undecidable("%s: store to a player object not understood: %s" % (fn.nloc(e), dtable.describe(e)))
                         locals_[(d, lhs["member"])] = (classify(bq[2], sk), bq[2]) if lhs["member"] == fld else (None, bq[2])
